@@ -407,16 +407,30 @@ def run_derive_datasets(ctx, seed):
     m[2:-2, 2:-2] = rng.random((H - 4, W - 4)) < 0.3
     m[3, 3] = False
 
+    # every second seed: data and noise map stored natively, and a noise covariance matrix on the dataset
+    native = bool(seed % 2)
+    Zc = rng.normal(size=(H * W, H * W)) * 0.05
+    cov = (Zc @ Zc.T + np.diag(nz.ravel() ** 2)) if native else None
+    m_b = m.copy()
+    m_b[2:-2, 2:-2] &= rng.random((H - 4, W - 4)) < 0.5          # a larger unmasked region that contains the one of `m`
+
     def unmasked():
-        return aa.Imaging(data=aa.Array2D.no_mask(values=d.copy(), pixel_scales=0.4, origin=(0.3, -0.2)), noise_map=aa.Array2D.no_mask(values=nz.copy(), pixel_scales=0.4, origin=(0.3, -0.2)),
-                          psf=aa.Kernel2D.no_mask(values=k.copy(), pixel_scales=0.4))
+        def arr(v):
+            a = aa.Array2D.no_mask(values=v.copy(), pixel_scales=0.4, origin=(0.3, -0.2))
+            return a.native if native else a
+        return aa.Imaging(data=arr(d), noise_map=arr(nz), psf=aa.Kernel2D.no_mask(values=k.copy(), pixel_scales=0.4),
+                          noise_covariance_matrix=None if cov is None else cov.copy())
 
     def mask():
         return aa.Mask2D(mask=m.copy(), pixel_scales=0.4, origin=(0.3, -0.2))
 
+    def mask_b():
+        return aa.Mask2D(mask=m_b.copy(), pixel_scales=0.4, origin=(0.3, -0.2))
+
     derivs = {"apply_mask": lambda ds: ds.apply_mask(mask=mask()), "trimmed_after_convolution_from": lambda ds: ds.trimmed_after_convolution_from(kernel_shape=(3, 3)),
               "apply_over_sampling": lambda ds: ds.apply_over_sampling(over_sampling=aa.OverSamplingDataset(uniform=aa.OverSamplingUniform(sub_size=2), pixelization=aa.OverSamplingUniform(sub_size=2))),
               "apply_noise_scaling": lambda ds: ds.apply_noise_scaling(mask=mask(), noise_value=1e5),
+              "apply_mask(other).apply_mask": lambda ds: ds.apply_mask(mask=mask_b()).apply_mask(mask=mask()),
               "apply_mask.trimmed": lambda ds: ds.apply_mask(mask=mask()).trimmed_after_convolution_from(kernel_shape=(3, 3)),
               "apply_mask.apply_over_sampling": lambda ds: ds.apply_mask(mask=mask()).apply_over_sampling(over_sampling=aa.OverSamplingDataset(uniform=aa.OverSamplingUniform(sub_size=2)))}
     sub = ("data", "noise_map", "mask", "psf")
@@ -433,6 +447,7 @@ def run_derive_datasets(ctx, seed):
                 gr = ds.grids
                 for gn in ("uniform", "pixelization", "blurring"):
                     out["grids." + gn] = value_fp(getattr(gr, gn))
+                out["noise_covariance_matrix"] = value_fp(ds.noise_covariance_matrix)
                 out["convolver.kernel"] = value_fp(ds.convolver.kernel)
                 out["convolver.mask"] = value_fp(ds.convolver.mask)
                 out["w_tilde.curvature_preload"] = value_fp(ds.w_tilde.curvature_preload)
@@ -440,7 +455,8 @@ def run_derive_datasets(ctx, seed):
                 out["grids/convolver/w_tilde"] = "EXC:" + type(e).__name__
             return out
         try:
-            base = table(op(unmasked()))
+            # masking a dataset that was masked before (with a mask containing the new one) is judged against masking directly
+            base = table(unmasked().apply_mask(mask=mask())) if on == "apply_mask(other).apply_mask" else table(op(unmasked()))
         except Exception as e:
             ctx.skipped["derive_ds:unsupported:" + on] += 1
             continue
@@ -450,7 +466,9 @@ def run_derive_datasets(ctx, seed):
         T.own("source.noise_map", src.noise_map)
         T.own("source.psf", src.psf)
         before_src = table(src)
-        dd = op(src)
+        okd, dd = ctx.guarded("derived.consistent", lambda: op(src))       # the reference route worked: raising here is a violation
+        if not okd:
+            continue
         got = table(dd)
         for n in base:
             ctx.check(got.get(n) == base[n], "derived.consistent", structure="Imaging", operation=on, quantity=n, variant="read_all_then_derive", fresh=base[n][:70], got=str(got.get(n))[:70])
@@ -458,8 +476,14 @@ def run_derive_datasets(ctx, seed):
         for n in before_src:
             ctx.check(after_src.get(n) == before_src[n], "order.matches_baseline", quantity="source_dataset." + n, baseline=before_src[n][:70], got=str(after_src.get(n))[:70],
                       earlier_reads=["derive:" + on, "read everything on the derived dataset"], graph="dataset-derivation")
+        if cov is not None and on in ("apply_mask", "apply_mask(other).apply_mask"):
+            keep = np.flatnonzero(~m.ravel())
+            gc = dd.noise_covariance_matrix
+            ctx.check(gc is not None and np.array_equal(_np(gc), cov[np.ix_(keep, keep)]), "derived.consistent", structure="Imaging", operation=on,
+                      quantity="noise_covariance_matrix (= rows/columns of the unmasked pixels)", variant="against the input matrix",
+                      got_shape=None if gc is None else list(_np(gc).shape), expected_shape=[len(keep), len(keep)])
         T.verify("dataset derivation " + on)
-        ctx.case("ds", seed, on, nontrivial=True, cls=["derive_dataset", "derive:" + on], sample=None)
+        ctx.case("ds", seed, on, nontrivial=True, cls=["derive_dataset", "derive:" + on, "dataset_storage:" + ("native+covariance" if native else "slim")], sample=None)
 
 
 # ----------------------------------------------------------------------------------------- entry-point sweep
